@@ -149,10 +149,10 @@ PROPS['C08'] = dict(
     level_text='Single-step contract of the range iterator proved for every bucket content, every key and every bound; the whole-scan statement follows by induction over calls (paper).',
     level_note='Range::next is RELATIVE to the Cursor contract (prelude/cursor_contract.rs: seek stops at the key or just before where it would be; first next yields the current slot). '
                'The cursor unit proves the traversal against the in-order numbering of an assumed structurally sound tree (branches non-empty, finite height); that tree order IS ascending key order is C05 of the state the cursor runs on (assumed here), '
-               'and WHERE seek lands relative to the key (PageNode::index, slot-before rule) is proved per node in unit pagenode but not composed over levels. Termination of every loop of the cursor is proved (the loop in Cursor::next that skips emptied leaves by a position numbering, prelude/cursor_slots.rs). Byte-string order is an uninterpreted strict total order.',
+               'WHERE seek lands: search / seek are proved to sit, at every level, on the slot that level\'s own binary search answers for the key and to report the leaf\'s exact-hit flag; what that slot is (slot-before rule) is proved per node in unit pagenode. Termination of every loop of the cursor is proved (the loop in Cursor::next that skips emptied leaves by a position numbering, prelude/cursor_slots.rs). Byte-string order is an uninterpreted strict total order.',
     assumptions=[A_TOOLS, 'Cursor::{seek,current,next} by assumed contract over an abstract ascending key sequence', 'byte-string comparison is a strict total order (axiom_key_order); rule R10: `a < *b` on &[u8] compares the slices',
                  'the RangeBounds implementation agrees with its vstd specification (true for every std range type and (Bound, Bound))'],
-    not_covered=['that the position seek leaves is the slot-before of the key over ALL levels (per node: unit pagenode)'],
+    not_covered=['the identification of the cursor unit\'s node_slot / node_exact (what each node answers for a key) with PageNode_index of unit pagenode is by name (same real function, two units), not a machine-checked link'],
 )
 
 A_TREEIF = 'the tree a cursor walks is an abstract interface (prelude/cursor_tree.rs): branch nodes are never empty, children are strictly lower (finite height), the shape does not change while the cursor walks'
